@@ -5,6 +5,8 @@
 -/
 import Csvq.Props.C01
 import Csvq.Lemmas.SessionHist
+import Csvq.Gen.CacheFacts
+import Csvq.Ref.CacheFacts
 namespace Csvq.C20
 open Csvq.Session
 
@@ -88,15 +90,8 @@ theorem fresh_after_rollback (s : State C) (p : Path) :
     the transaction's own successful changes to p applied in order, and it is still held for update. -/
 theorem locked_view_is_own_changes (p : Path) (ops : List (Op C)) (hne : ∀ op ∈ ops, ¬ IsEnd op) :
     ∀ (s : State C) (c : C), s.cache p = some ⟨c, true⟩ →
-      (runOps s ops).cache p = some ⟨ownEffect p ops c, true⟩ := by
-  induction ops with
-  | nil => intro s c h; exact h
-  | cons op ops ih =>
-    intro s c h
-    have h1 := step_locked s p c op (hne op List.mem_cons_self) h
-    have := ih (fun o ho => hne o (List.mem_cons_of_mem _ ho)) (step s op).1 _ h1
-    rw [ownEffect_cons]
-    simpa only [runOps, List.foldl_cons] using this
+      (runOps s ops).cache p = some ⟨ownEffect p ops c, true⟩ :=
+  locked_view_hist p ops hne
 
 /-- … so every later read of p in that history shows exactly that -/
 theorem read_shows_loaded_plus_own_changes (p : Path) (ops : List (Op C)) (hne : ∀ op ∈ ops, ¬ IsEnd op)
@@ -118,6 +113,76 @@ theorem unlocked_view_stable (p : Path) (ops : List (Op C)) (hk : ∀ op ∈ ops
     have h1 := step_unlocked s p c op (hk op List.mem_cons_self) h
     have := ih (fun o ho => hk o (List.mem_cons_of_mem _ ho)) (step s op).1 c h1
     simpa only [runOps, List.foldl_cons] using this
+
+/-! ## Tie to the source: the cache decision of `cacheViewFromFile`, regenerated on every run -/
+
+/-- `load` written with the condition and the flag assignment REGENERATED from load_view.go
+    (`Gen.reloadCond`, `Gen.forUpdateAfterLoad`) -/
+def loadGen (s : State C) (p : Path) (forUpdate : Bool) : Option (State C × C) :=
+  let isCached := (s.cache p).isSome
+  let cachedForUpdate := match s.cache p with | some c => c.forUpdate | none => false
+  if Csvq.Gen.reloadCond isCached forUpdate cachedForUpdate then
+    match s.disk p with
+    | some d =>
+      let flag := Csvq.Gen.forUpdateAfterLoad isCached forUpdate cachedForUpdate
+      some ({ s with cache := setFn s.cache p (some ⟨d, flag⟩) }, d)
+    | none => none
+  else
+    match s.cache p with
+    | some c => some (s, c.content)
+    | none => none
+
+/-- the model's `load` — on which every theorem of C01 and C20 rests — takes the file from disk exactly
+    when the code's condition says so and records exactly the flag the code records.  An edit of the
+    condition or of the `view.FileInfo.ForUpdate = …` assignment in cacheViewFromFile breaks this. -/
+theorem load_eq_gen (s : State C) (p : Path) (forUpdate : Bool) : load s p forUpdate = loadGen s p forUpdate := by
+  unfold load loadGen
+  cases hc : s.cache p with
+  | none => cases hd : s.disk p <;> simp [Csvq.Gen.reloadCond, Csvq.Gen.forUpdateAfterLoad]
+  | some c =>
+    cases hd : s.disk p <;> cases forUpdate <;> cases hfu : c.forUpdate <;>
+      simp [Csvq.Gen.reloadCond, Csvq.Gen.forUpdateAfterLoad, hfu]
+
+/-- the load branch is the reviewed one -/
+theorem gen_cache_load_eq_ref : Csvq.Gen.fxCacheLoad = Csvq.Ref.fxCacheLoad := by decide
+
+/-- a plain read keeps no handler (no lock) beyond the call: the read handler's close is deferred directly
+    after it was obtained -/
+theorem gen_plain_read_releases :
+    ["handler_read", "if(err){", "return", "}", "defer:close_handler(h)"] <:+: Csvq.Gen.fxCacheLoad := by decide
+
+/-- the ForUpdate flag is assigned on every load, between the load and the caching of the view, and
+    nowhere else -/
+theorem gen_flag_set_on_every_load :
+    ["load", "if(err){", "if{", "}", "if(forUpdate){", "close_handler(fileInfo.Handler)", "}", "return", "}",
+     "set_forupdate(forUpdate)", "cache_set"] <:+ Csvq.Gen.fxCacheLoad ∧
+    Csvq.Gen.fxCacheTail = ["if{", "}", "return"] := by decide
+
+/-- a cached view that is loaded again is disposed first (its read-only copy cannot survive next to the
+    locked one) -/
+theorem gen_dispose_before_reload :
+    Csvq.Gen.fxCacheLoad.take 2 = ["if(isCached){", "dispose"] := by decide
+
+/-- the documented reload re-reads the FILE, not the table's attributes: they are defaulted from the
+    statement's options only where the FileInfo is made anew, never on the reload of a cached table -/
+theorem gen_reload_keeps_attributes :
+    Csvq.Gen.fxCacheLoad.take 12
+      = ["if(isCached){", "dispose", "if(err){", "return", "}", "}",
+         "else{", "new_fileinfo", "if(err){", "return", "}", "set_default_attributes"] ∧
+    (Csvq.Gen.fxCacheLoad.filter (· = "set_default_attributes")).length = 1 := by decide
+
+/-- a load that fails under the lock gives the lock back -/
+theorem gen_failed_locked_load_releases :
+    ["load", "if(err){", "if{", "}", "if(forUpdate){", "close_handler(fileInfo.Handler)", "}", "return", "}"]
+      <:+: Csvq.Gen.fxCacheLoad := by decide
+
+/-- COMMIT and ROLLBACK both end by releasing the resources, which starts by clearing the cache: the next
+    read of any table goes to the file (`fresh_after_commit`, `fresh_after_rollback`) -/
+theorem gen_cache_cleared_at_end :
+    Csvq.Gen.fxCommitCache.getLast? = some "release_resources" ∧
+    Csvq.Gen.fxRollbackCache.getLast? = some "release_resources" ∧
+    Csvq.Gen.fxReleaseResources.head? = some "cache_clean" ∧
+    Csvq.Gen.fxReleaseResourcesWithErrors.head? = some "cache_clean" := by decide
 
 /-! non-vacuity -/
 example : (step (runOps (fresh (fun _ => some [1]))
